@@ -115,6 +115,18 @@ CHECKS["C04"] = {
     "note": TB + "; blocks are compared through the public projection, duplicate-key wrapping ignored",
 }
 
+CHECKS["C09"] = {
+    "text": "BibLibrary.tla composes the scanner with Library!AddLoop; MC_Dup enumerates every document of up to 4 (quick: "
+            "2.2e4) / 5 (thorough: 2.7e5) blocks over 12 templates whose entry, string and field keys collide in every "
+            "pattern and interleaving, and TLC proves DupOK (count preserved, first block with a key live, every later one a "
+            "wrapper at its own position pointing at the first, duplicate-field entries failed and never live, both indexes "
+            "exact); every document is parsed with parse_stack=[] and with the default stack and the library is compared "
+            "position by position (wrapper, key, previous block, complete inner duplicate, live sets, failed set); random "
+            "derivations with keys from a pool of three go through the same comparison via the TLC oracle.",
+    "ref": "6/C09", "technique": "TLA+ composition spec (BibLibrary.tla = BibSplitter + Library) model-checked with TLC + bounded-exhaustive replay + TLC oracle on random derivations",
+    "note": TB + "; previous_block identified by identity or (class, raw, start_line)",
+}
+
 NOT_APPLICABLE = {}
 for _e in ENGINES:
     _e["serves_properties"] = sorted(CHECKS)
